@@ -564,9 +564,27 @@ impl BuildJob<'_> {
 
         #[cfg(feature = "verif-hooks")]
         crate::verif::note("record-begin", &format!("fid={} rv={}", sf.id(), rv));
-        let after_t = try_stat(t).expect("cannot get target metadata");
-        let st1 = out_file.metadata().expect("cannot get out_file metadata");
-        let mut st2 = try_stat(tmp_name).expect("unexpected error when statting $3");
+        // Whatever the script did to the place where its target lives (its directory may
+        // be gone, or have become a file), this job fails; redo itself goes on, because
+        // other jobs may be running whose results have to be recorded too.
+        let after_t = try_stat(t).unwrap_or_else(|e| {
+            log_err!("{:?}: stat: {}\n", t, e);
+            rv = if rv == EXIT_SUCCESS { EXIT_BUILD_JOB_ERROR } else { rv };
+            None
+        });
+        let st1_size = match out_file.metadata() {
+            Ok(m) => m.size(),
+            Err(e) => {
+                log_err!("{:?}: stat stdout: {}\n", t, e);
+                rv = if rv == EXIT_SUCCESS { EXIT_BUILD_JOB_ERROR } else { rv };
+                0
+            }
+        };
+        let mut st2 = try_stat(tmp_name).unwrap_or_else(|e| {
+            log_err!("{:?}: stat {:?}: {}\n", t, tmp_name, e);
+            rv = if rv == EXIT_SUCCESS { EXIT_BUILD_JOB_ERROR } else { rv };
+            None
+        });
         let modified = match after_t {
             Some(after_t) => {
                 !after_t.is_dir()
@@ -584,7 +602,7 @@ impl BuildJob<'_> {
             eprintln!("{:?} modified {} directly!", argv[2].as_ref(), t);
             eprintln!("... you should update $3 (a temp file) or stdout, not $1.");
             rv = EXIT_TARGET_DIRECTLY_MODIFIED;
-        } else if st2.is_some() && st1.size() > 0 {
+        } else if st2.is_some() && st1_size > 0 {
             eprintln!("{:?} wrote to stdout *and* created $3.", argv[2].as_ref());
             eprintln!("... you should write status messages to stderr, not stdout.");
             rv = EXIT_MULTIPLE_OUTPUTS;
@@ -593,11 +611,12 @@ impl BuildJob<'_> {
             // FIXME: race condition here between updating stamp/is_generated
             // and actually renaming the files into place.  There needs to
             // be some kind of two-stage commit, I guess.
-            if st1.size() > 0 && st2.is_none() {
+            if st1_size > 0 && st2.is_none() {
                 // script wrote to stdout.  Copy its contents to the tmpfile.
-                helpers::unlink(tmp_name)
-                    .expect("failed to remove old temp file before copying stdout");
-                match File::create(tmp_name) {
+                match helpers::unlink(tmp_name)
+                    .map_err(|e| io::Error::from_raw_os_error(e as i32))
+                    .and_then(|_| File::create(tmp_name))
+                {
                     Err(e) => {
                         let cwd = &env::current_dir().expect("cannot get working directory");
                         let abs_t = helpers::abs_path(cwd, t);
@@ -618,14 +637,17 @@ impl BuildJob<'_> {
                         rv = EXIT_BUILD_JOB_ERROR;
                     }
                     Ok(mut newf) => {
-                        out_file
+                        match out_file
                             .seek(SeekFrom::Start(0))
-                            .expect("could not seek to beginning of stdout");
-                        io::copy(&mut out_file, &mut newf).expect("could not copy stdout");
-                        st2 = Some(
-                            newf.metadata()
-                                .expect("cannot get copied stdout file metadata"),
-                        );
+                            .and_then(|_| io::copy(&mut out_file, &mut newf))
+                            .and_then(|_| newf.metadata())
+                        {
+                            Ok(m) => st2 = Some(m),
+                            Err(e) => {
+                                log_err!("{:?}: copy stdout: {}\n", t, e);
+                                rv = EXIT_BUILD_JOB_ERROR;
+                            }
+                        }
                     }
                 }
             }
@@ -650,7 +672,7 @@ impl BuildJob<'_> {
                 log_err!("{:?}: stage new state: {}", t, e);
                 rv = EXIT_BUILD_JOB_ERROR;
             }
-            if staged.is_err() {
+            if staged.is_err() || rv != EXIT_SUCCESS {
                 // leave the target alone
             } else if st2.is_some() {
                 // either $3 file was created *or* stdout was written to.
@@ -670,7 +692,10 @@ impl BuildJob<'_> {
                     Ok(_)
                     | Err(Errno::EISDIR)
                     | Err(Errno::EPERM) => {}
-                    e @ Err(_) => e.expect("failed to remove target file"),
+                    Err(e) => {
+                        log_err!("{:?}: remove: {}\n", t, e);
+                        rv = EXIT_BUILD_JOB_ERROR;
+                    }
                 }
             }
             if let Err(e) = sf.refresh(ptx) {
@@ -684,10 +709,13 @@ impl BuildJob<'_> {
                 // it got checked during the run; someone ran redo-stamp.
                 // update_stamp would call set_changed(); we don't want that,
                 // so only use read_stamp.
-                sf.stamp = Some(
-                    sf.read_stamp(ptx.state().env())
-                        .expect("target file stat failed"),
-                );
+                match sf.read_stamp(ptx.state().env()) {
+                    Ok(stamp) => sf.stamp = Some(stamp),
+                    Err(e) => {
+                        log_err!("{:?}: read stamp: {}\n", t, e);
+                        rv = EXIT_BUILD_JOB_ERROR;
+                    }
+                }
             } else {
                 sf.set_checksum(String::new());
                 if let Err(e) = sf.update_stamp(ptx.state().env(), false) {
@@ -721,9 +749,11 @@ impl BuildJob<'_> {
             &format!(
                 "{} {}",
                 rv,
+                // (if the script has wrecked the directories above its target there is
+                // no relative spelling any more: name it the way we were given it)
                 state::target_relpath(ptx.state().env(), &t)
-                    .expect("cannot format target as relative path")
-                    .as_str()
+                    .map(|p| p.as_str().to_string())
+                    .unwrap_or_else(|_| t.as_str().to_string())
             ),
             None,
         );
@@ -1077,7 +1107,8 @@ where
 /// being built again (while cleaning up before the next attempt).
 fn remove_tmp(path: &Path) -> io::Result<()> {
     match helpers::unlink(path) {
-        Ok(()) => Ok(()),
+        // (below something that is not a directory there is nothing to remove)
+        Ok(()) | Err(Errno::ENOTDIR) => Ok(()),
         Err(Errno::EISDIR) | Err(Errno::EPERM) => match fs::remove_dir_all(path) {
             Err(e) if e.kind() != io::ErrorKind::NotFound => Err(e),
             _ => Ok(()),
@@ -1091,6 +1122,8 @@ fn try_stat<P: AsRef<Path>>(path: P) -> io::Result<Option<Metadata>> {
         Ok(m) => Ok(Some(m)),
         Err(e) => match e.kind() {
             io::ErrorKind::NotFound => Ok(None),
+            // below something that is not a directory there is no file either
+            _ if e.raw_os_error() == Some(Errno::ENOTDIR as i32) => Ok(None),
             _ => Err(e),
         },
     }
